@@ -180,8 +180,8 @@ impl Campaign for C04c {
     }
     fn runs(&self, tier: Tier) -> u64 {
         match tier {
-            Tier::Quick => 10_000,
-            Tier::Thorough => 400_000,
+            Tier::Quick => 30_000,
+            Tier::Thorough => 800_000,
         }
     }
     fn generate(&self, rng: &mut Rng, index: u64, tier: Tier) -> Scenario {
@@ -306,8 +306,8 @@ impl Campaign for C19c {
     }
     fn runs(&self, tier: Tier) -> u64 {
         match tier {
-            Tier::Quick => 10_000,
-            Tier::Thorough => 400_000,
+            Tier::Quick => 100_000,
+            Tier::Thorough => 3_000_000,
         }
     }
     fn generate(&self, rng: &mut Rng, index: u64, _tier: Tier) -> Scenario {
